@@ -2,7 +2,7 @@ SPECIFICATION Spec
 CONSTANTS
   N = 5
   MaxCalls = 1
-  ArgVals = {1, 2, 4, 5, 6}
+  ArgVals = {1, 2, 3, 5, 6}
   MaxArgs = 2
   OptSets <- OptSetsMC
   Reps = {1, 6}
